@@ -1,11 +1,14 @@
 /- Line-protocol driver for the theta family (C01, C02). Core Lean only. -/
 import DSModel.Canon
 import DSModel.Theta.Update
+import DSModel.Theta.SetOps
 namespace DS.Theta
 
 inductive Obj where
   | upd (c : Cfg) (seed : UInt64) (s : St Unit)
   | cmp (c : Compact Unit)
+  | uni (c : Cfg) (seedHash : Nat) (u : Union Unit)
+  | int (seedHash : Nat) (i : Inter Unit)
 
 abbrev Objs := Array (Option Obj)
 
@@ -24,9 +27,67 @@ def obsLine (theta64 : Nat) (empty ordered : Bool) (seedHash : Nat) (ks : List N
   let ents := if n ≤ 4096 then joinSp (ks.map toString) else s!"fold {hex64 (fold64 ks)}"
   s!"T {theta64} {boolStr empty} {boolStr estMode} {boolStr ordered} {n} {hexF est} {seedHash} {ents}"
 
+def observeCompact (c : Compact Unit) : String :=
+  obsLine c.theta c.isEmpty c.ordered c.seedHash (sortNat (keys c.ents))
+
 def observe : Obj → String
   | .upd _ seed s => obsLine (theta64 s) s.isEmpty (isOrdered s) (seedHash seed).toNat (keys s.ents)
-  | .cmp c => obsLine c.theta c.isEmpty c.ordered c.seedHash (sortNat (keys c.ents))
+  | .cmp c => observeCompact c
+  | .uni _ _ _ => "ok"
+  | .int _ _ => "ok"
+
+/-- any sketch object as a set-operation operand -/
+def operand : Obj → Option (Compact Unit)
+  | .upd _ seed s => some (operandOfUpdate s (seedHash seed).toNat)
+  | .cmp c => some c
+  | _ => none
+
+def nopPolicy : Unit → Unit → Unit := fun _ _ => ()
+
+def ceilPow2 (n : Nat) : Nat := if n = 0 then 0 else
+  let rec go (p fuel : Nat) : Nat := match fuel with
+    | 0 => p
+    | fuel + 1 => if n ≤ p then p else go (2 * p) fuel
+  go 1 40
+
+def jaccard (t : Nat × Nat × Nat × Nat × Nat) (a b : Compact Unit) (seed : UInt64) (same : Bool) : String :=
+  let one := hexF 1.0
+  let zero := hexF 0.0
+  if same then s!"J {one} {one} {one}"
+  else if a.isEmpty && b.isEmpty then s!"J {one} {one} {one}"
+  else if a.isEmpty || b.isEmpty then s!"J {zero} {zero} {zero}"
+  else
+    let (rszNum, rszDen, rbdNum, rbdDen, minLgK) := t
+    let lgK := min (max (Nat.log2 (ceilPow2 (a.ents.length + b.ents.length))) minLgK) 26
+    let c : Cfg := { lgNom := lgK, lgRf := 3, theta0 := MAX_THETA, lgStart := startingSubMultiple (lgK + 1) minLgK 3,
+                     rszNum := rszNum, rszDen := rszDen, rbdNum := rbdNum, rbdDen := rbdDen }
+    let sh := (seedHash seed).toNat
+    match unionUpdate c nopPolicy sh (unionInit c) a with
+    | none => "throw"
+    | some u1 => match unionUpdate c nopPolicy sh u1 b with
+      | none => "throw"
+      | some u2 =>
+        let uab := unionResult c u2 false sh
+        if uab.ents.length == a.ents.length && uab.ents.length == b.ents.length && uab.theta == a.theta && uab.theta == b.theta
+        then s!"J {one} {one} {one}"
+        else
+          match interUpdate nopPolicy sh interInit a with
+          | none => "throw"
+          | some i1 => match interUpdate nopPolicy sh i1 b with
+            | none => "throw"
+            | some i2 => match interUpdate nopPolicy sh i2 uab with
+              | none => "throw"
+              | some i3 => match interResult i3 false sh with
+                | none => "throw"
+                | some r =>
+                  if r.theta > uab.theta then "throw" else
+                  let cb := r.ents.length
+                  let ca := if uab.theta == r.theta then uab.ents.length else (uab.ents.filter (fun e => e.1 < r.theta)).length
+                  let f := thetaFrac r.theta
+                  let est := if ca == 0 then 0.5 else cb.toFloat / ca.toFloat
+                  if ca == 0 then s!"J {hexF 0.0} {hexF est} {hexF 1.0}"
+                  else if f == 1.0 then s!"J {hexF est} {hexF est} {hexF est}"
+                  else s!"Jest {hexF est}"
 
 def theta0OfP (pbits : UInt32) : Nat :=
   let p := (Float32.ofBits pbits).toFloat
@@ -46,7 +107,9 @@ def mkCfg (t : Tunables) (lgK lgRf : Nat) (pbits : UInt32) : Cfg :=
 
 def unitF : Option Unit → Unit := fun _ => ()
 
-def stepLine (t : Tunables) (o : Objs) (w : List String) : Objs × String :=
+def stepLine (t : Tunables) (o : Objs) (w0 : List String) : Objs × String :=
+  -- a trailing `mv` asks the harness to pass the operand as an rvalue; logically the same operation
+  let w := if w0.getLast? == some "mv" then w0.dropLast else w0
   match w with
   | ["new", id, lgk, rf, p, seed] =>
     match id.toNat?, lgk.toNat?, rf.toNat?, parseHex p, seed.toNat? with
@@ -88,6 +151,71 @@ def stepLine (t : Tunables) (o : Objs) (w : List String) : Objs × String :=
       let ob := Obj.cmp { c with ordered := c.ordered || ord == "1" }
       (o.set' nid ob, observe ob)
     | _, _ => (o, "bad-op")
+  | ["ser", id, nid, _kind, _seed] =>
+    -- serialize -> deserialize / wrap (compressed or not): the logical content of a compact sketch is unchanged
+    match id.toNat? >>= o.get', nid.toNat?, _seed.toNat? with
+    | some (.cmp c), some nid, some seed =>
+      -- the reader checks the seed hash of a non-empty image against the caller's seed
+      if !c.isEmpty && (seedHash (UInt64.ofNat seed)).toNat ≠ c.seedHash then (o, "throw")
+      else let ob := Obj.cmp c; (o.set' nid ob, observe ob)
+    | _, _, _ => (o, "bad-op")
+  | ["unew", id, lgk, rf, p, seed] =>
+    match id.toNat?, lgk.toNat?, rf.toNat?, parseHex p, seed.toNat? with
+    | some id, some lgk, some rf, some p, some seed =>
+      let c := mkCfg t lgk rf (UInt32.ofNat p)
+      (o.set' id (Obj.uni c (seedHash (UInt64.ofNat seed)).toNat (unionInit c)), "ok")
+    | _, _, _, _, _ => (o, "bad-op")
+  | ["uupd", uid, sid] =>
+    match uid.toNat? >>= o.get', (sid.toNat? >>= o.get') >>= operand with
+    | some (.uni c sh u), some sk =>
+      match unionUpdate c nopPolicy sh u sk with
+      | some u' => (o.set' uid.toNat?.get! (Obj.uni c sh u'), "ok")
+      | none => (o, "throw")
+    | _, _ => (o, "bad-op")
+  | ["ures", uid, nid, ord] =>
+    match uid.toNat? >>= o.get', nid.toNat? with
+    | some (.uni c sh u), some nid =>
+      let ob := Obj.cmp (unionResult c u (ord == "1") sh)
+      (o.set' nid ob, observe ob)
+    | _, _ => (o, "bad-op")
+  | ["ureset", uid] =>
+    match uid.toNat? >>= o.get' with
+    | some (.uni c sh u) => (o.set' uid.toNat?.get! (Obj.uni c sh (unionReset c u)), "ok")
+    | _ => (o, "bad-op")
+  | ["inew", id, seed] =>
+    match id.toNat?, seed.toNat? with
+    | some id, some seed => (o.set' id (Obj.int (seedHash (UInt64.ofNat seed)).toNat interInit), "ok")
+    | _, _ => (o, "bad-op")
+  | ["iupd", iid, sid] =>
+    match iid.toNat? >>= o.get', (sid.toNat? >>= o.get') >>= operand with
+    | some (.int sh i), some sk =>
+      match interUpdate nopPolicy sh i sk with
+      | some i' => (o.set' iid.toNat?.get! (Obj.int sh i'), "ok")
+      | none => (o, "throw")
+    | _, _ => (o, "bad-op")
+  | ["ires", iid, nid, ord] =>
+    match iid.toNat? >>= o.get', nid.toNat? with
+    | some (.int sh i), some nid =>
+      match interResult i (ord == "1") sh with
+      | some r => let ob := Obj.cmp r; (o.set' nid ob, observe ob)
+      | none => (o, "throw")
+    | _, _ => (o, "bad-op")
+  | ["ihas", iid] =>
+    match iid.toNat? >>= o.get' with
+    | some (.int _ i) => (o, s!"has {boolStr i.valid}")
+    | _ => (o, "bad-op")
+  | ["anotb", aid, bid, nid, ord, seed] =>
+    match (aid.toNat? >>= o.get') >>= operand, (bid.toNat? >>= o.get') >>= operand, nid.toNat?, seed.toNat? with
+    | some a, some b, some nid, some seed =>
+      match aNotB (seedHash (UInt64.ofNat seed)).toNat a b (ord == "1") with
+      | some r => let ob := Obj.cmp r; (o.set' nid ob, observe ob)
+      | none => (o, "throw")
+    | _, _, _, _ => (o, "bad-op")
+  | ["jac", aid, bid, seed] =>
+    match (aid.toNat? >>= o.get') >>= operand, (bid.toNat? >>= o.get') >>= operand, seed.toNat? with
+    | some a, some b, some seed =>
+      (o, jaccard (t.rszNum, t.rszDen, t.rbdNum, t.rbdDen, t.minLgK) a b (UInt64.ofNat seed) (aid == bid))
+    | _, _, _ => (o, "bad-op")
   | _ => (o, "bad-op")
 
 end DS.Theta
